@@ -183,6 +183,20 @@ macro_rules! float_checks {
                 {
                     return Err(format!("{}: from_u64/from_i64/NumCast({:#x}) differ from native", tn, raw));
                 }
+                // integers that do not depend on the float's width: limits of the integer types and
+                // double-rounding hazards (just beside the midpoint of two adjacent f32 values, above 2^53)
+                for x in extra_ints(raw as u64) {
+                    let xi = x as i64;
+                    if <$p as FromPrimitive>::from_u64(x).map(|v| bits(<$n as From<$p>>::from(v))) != <$n as FromPrimitive>::from_u64(x).map(bits)
+                        || <$p as FromPrimitive>::from_i64(xi).map(|v| bits(<$n as From<$p>>::from(v))) != <$n as FromPrimitive>::from_i64(xi).map(bits)
+                        || <$p as FromPrimitive>::from_i64(xi.wrapping_neg()).map(|v| bits(<$n as From<$p>>::from(v))) != <$n as FromPrimitive>::from_i64(xi.wrapping_neg()).map(bits)
+                        || <$p as FromPrimitive>::from_usize(x as usize).map(|v| bits(<$n as From<$p>>::from(v))) != <$n as FromPrimitive>::from_usize(x as usize).map(bits)
+                        || <$p as FromPrimitive>::from_u32(x as u32).map(|v| bits(<$n as From<$p>>::from(v))) != <$n as FromPrimitive>::from_u32(x as u32).map(bits)
+                        || <$p as NumCast>::from(x).map(|v| bits(<$n as From<$p>>::from(v))) != <$n as NumCast>::from(x).map(bits)
+                    {
+                        return Err(format!("{}: from_u64/from_i64/from_usize/from_u32/NumCast({}) differ from native", tn, x));
+                    }
+                }
                 // negation is a pure sign-bit flip (also for NaNs), so it is compared bit-for-bit
                 if bits(<$n as From<$p>>::from(-p)) != bits(-n) {
                     return Err(format!("{}: -({:?})", tn, n));
@@ -262,6 +276,25 @@ const TYPES: [(CheckFn, u32, bool); 16] = [
     (be_f64, 64, true),
 ];
 
+/// Integers for the FromPrimitive checks of the float types, derived from the case's raw value.
+fn extra_ints(raw: u64) -> [u64; 8] {
+    let k = 54 + (raw % 10) as u32; // 54..=63
+    let m = (raw >> 8) & 0x7f_ffff;
+    let room = (1u64 << (k - 53)) - 1; // distance below f64 resolution
+    let d = 1 + (raw >> 40) % room;
+    let mid = (1u64 << k).wrapping_add((2 * m + 1) << (k - 24));
+    [
+        mid.wrapping_add(d),
+        mid.wrapping_sub(d),
+        (1u64 << k) + (1u64 << (k - 24)) + 1,
+        (1u64 << k) + 3 * (1u64 << (k - 24)) - 1,
+        [u64::MAX, i64::MAX as u64, (i64::MAX as u64) + 1, u32::MAX as u64][(raw % 4) as usize],
+        [(1u64 << 24) + 1, (1u64 << 25) + 3, (1u64 << 53) + 1, (1u64 << 53) - 1][((raw >> 2) % 4) as usize],
+        raw.rotate_left(17) ^ 0x9E37_79B9_7F4A_7C15,
+        raw,
+    ]
+}
+
 fn boundary(bits: u32, float: bool) -> Vec<u128> {
     let mask: u128 = (1u128 << bits) - 1;
     let mut v: Vec<u128> = vec![0, 1, 2, 3, mask, mask - 1, mask >> 1, (mask >> 1) + 1, (mask >> 1) - 1, (mask >> 1) + 2, 0x7f, 0x80, 0xff, 0x100, 0xffff & mask, 0x8000, 10, 100];
@@ -274,6 +307,14 @@ fn boundary(bits: u32, float: bool) -> Vec<u128> {
         let (one, inf, qnan): (u128, u128, u128) = if bits == 32 { (0x3f80_0000, 0x7f80_0000, 0x7fc0_0000) } else { (0x3ff0_0000_0000_0000, 0x7ff0_0000_0000_0000, 0x7ff8_0000_0000_0000) };
         let sign = 1u128 << (bits - 1);
         v.extend([one, one | sign, sign, inf, inf | sign, qnan, qnan | sign, qnan | 0x1234, inf | 1, inf | sign | 0x77, one + 1, one - 1, 1 | sign]);
+        // +-2^k at the limits of the integer types (to_u64 / to_i64 / to_usize / to_i32 / to_u8), and their neighbours
+        let (bias, mant): (u128, u32) = if bits == 32 { (127, 23) } else { (1023, 52) };
+        for k in [7u128, 8, 15, 16, 31, 32, 52, 53, 63, 64, 65] {
+            let p = (bias + k) << mant;
+            v.extend([p, p + 1, p - 1, p | sign, (p + 1) | sign, (p - 1) | sign]);
+        }
+        // fractions in (-1, 0) and (0, 1)
+        v.extend([(bias - 1) << mant, ((bias - 1) << mant) | sign, ((bias - 1) << mant) + 1, (((bias - 1) << mant) + 1) | sign]);
     }
     v.sort();
     v.dedup();
